@@ -122,6 +122,7 @@ func kConc(args []string) (string, string) {
 		tok, caller, op, ms int
 	}
 	var releases []release
+	rmdirAt := []int{-1, 0, 0} // caller, op, ms: remove the output directory that long after the call was issued
 	if len(args) > 2 && args[2] != "-" {
 		for _, d := range strings.Split(args[2], ";") {
 			f := strings.Split(d, ":")
@@ -142,6 +143,12 @@ func kConc(args []string) (string, string) {
 			case "fail":
 				t, _ := strconv.Atoi(f[1])
 				cm.fail[t] = true
+			case "rmdir":
+				co := strings.Split(f[2], ".")
+				c, _ := strconv.Atoi(co[0])
+				o, _ := strconv.Atoi(co[1])
+				ms, _ := strconv.Atoi(f[3])
+				rmdirAt = []int{c, o, ms}
 			case "release":
 				t, _ := strconv.Atoi(f[1])
 				co := strings.Split(f[3], ".")
@@ -211,6 +218,16 @@ func kConc(args []string) (string, string) {
 			if g != nil {
 				close(g)
 			}
+		}()
+	}
+	if rmdirAt[0] >= 0 && rmdirAt[0] < len(calls) && rmdirAt[1] < len(calls[rmdirAt[0]]) {
+		go func() {
+			select {
+			case <-calls[rmdirAt[0]][rmdirAt[1]].started:
+			case <-time.After(4 * time.Second):
+			}
+			time.Sleep(time.Duration(rmdirAt[2]) * time.Millisecond)
+			_ = os.RemoveAll(dir)
 		}()
 	}
 	var closeReturned int64 // unix nanos of the first Close return
@@ -296,6 +313,18 @@ func kConc(args []string) (string, string) {
 	}
 	if hang != "" {
 		return "returned=not-all open=?", "VIOL c10-hang calls_did_not_return:" + hang
+	}
+	if rmdirAt[0] >= 0 {
+		// the files are gone with their directory (an environment fault): only the clause that every call returns is judged
+		ncalls := 0
+		for _, l := range calls {
+			for _, c := range l {
+				if c.op != "S" {
+					ncalls++
+				}
+			}
+		}
+		return fmt.Sprintf("returned=%d/%d open=0", ncalls, ncalls), "ok"
 	}
 	viol := ""
 	// A record the marshaler fails on: every call still returns, the failure comes back in the response, nothing of the record
@@ -465,7 +494,21 @@ func genConc(r *rng, n int, tier string, emit func(string, ...string)) {
 	for i := 0; i < n; i++ {
 		k := r.rangeInt(1, 3)
 		cfg := fmt.Sprintf("k=%d;comp=%s;max=%d;info=%s", k, tf(r.chance(1, 2)), pick(r, []int{0, 600, 1500}), tf(r.chance(1, 2)))
-		switch r.intn(9) {
+		switch r.intn(10) {
+		case 9: // the output directory disappears: every worker's final close/rename fails; Close, Rotate and later Writes still return
+			kk := r.rangeInt(2, 3)
+			cfg = fmt.Sprintf("k=%d;comp=%s;max=%d;info=%s", kk, tf(r.chance(1, 2)), pick(r, []int{0, 1500}), tf(r.chance(1, 2)))
+			var progs, steer []string
+			for c := 0; c < kk; c++ {
+				t := next()
+				progs = append(progs, fmt.Sprintf("W%d", t))
+				steer = append(steer, fmt.Sprintf("sleep:%d:3000", t))
+			}
+			last := pick(r, []string{"S30000,C", "S30000,R,C", "S30000,C,W" + strconv.Itoa(next())})
+			progs = append(progs, last)
+			steer = append(steer, fmt.Sprintf("rmdir:after:%d.0:15", kk))
+			emit("conc", cfg, strings.Join(progs, "/"), strings.Join(steer, ";"))
+			stat("conc-scenario", "close-fails")
 		case 0: // Close while a Write is being written
 			a := next()
 			emit("conc", cfg, fmt.Sprintf("W%d/S2000,C", a), fmt.Sprintf("gate:%d;release:%d:after:1.1:20", a, a))
